@@ -30,6 +30,7 @@ import (
 	"k8s.io/apimachinery/pkg/types"
 	utilruntime "k8s.io/apimachinery/pkg/util/runtime"
 	"k8s.io/apimachinery/pkg/util/strategicpatch"
+	"k8s.io/apimachinery/pkg/util/validation/field"
 	kubeinformers "k8s.io/client-go/informers"
 	coreinformers "k8s.io/client-go/informers/core/v1"
 	kubefake "k8s.io/client-go/kubernetes/fake"
@@ -710,6 +711,11 @@ func (w *World) apply(c *Call, action clienttesting.Action) (runtime.Object, err
 				panic(HarnessError{"unmodelled pod subresource " + c.Sub})
 			}
 			np, op := n.(*v1.Pod), cur.(*v1.Pod)
+			// pod specs are immutable but for the container images (and a few fields no code here touches): an update
+			// that changes anything else, e.g. spec.volumes, is refused
+			if !podSpecUpdateAllowed(&op.Spec, &np.Spec) {
+				return nil, apierrors.NewInvalid(schema.GroupKind{Kind: "Pod"}, c.Name, field.ErrorList{field.Forbidden(field.NewPath("spec"), "pod updates may not change fields other than `spec.containers[*].image`, `spec.initContainers[*].image`, `spec.activeDeadlineSeconds`, `spec.tolerations` (only additions to existing tolerations) or `spec.terminationGracePeriodSeconds`")})
+			}
 			np.Status = *op.Status.DeepCopy()
 			np.UID, np.CreationTimestamp, np.DeletionTimestamp = op.UID, op.CreationTimestamp, op.DeletionTimestamp
 		case "statefulsets":
@@ -867,4 +873,20 @@ func nsMatch(reqNS, objNS string) bool {
 		objNS = NS
 	}
 	return reqNS == objNS
+}
+
+// podSpecUpdateAllowed: the new spec equals the old one once container images are disregarded.
+func podSpecUpdateAllowed(old, new *v1.PodSpec) bool {
+	a, b := old.DeepCopy(), new.DeepCopy()
+	for _, sp := range []*v1.PodSpec{a, b} {
+		for i := range sp.Containers {
+			sp.Containers[i].Image = ""
+		}
+		for i := range sp.InitContainers {
+			sp.InitContainers[i].Image = ""
+		}
+	}
+	x, _ := json.Marshal(a)
+	y, _ := json.Marshal(b)
+	return string(x) == string(y)
 }
